@@ -186,6 +186,10 @@ inline void dump_problems(const MSSMNoFV_onshell& m, vexec::Out& o, const std::s
    o.ki(p + "have_tachyon", pr.have_tachyon());
    o.ki(p + "no_conv_Mu", pr.no_Mu_MassB_MassWB_convergence());
    o.ki(p + "no_conv_me2", pr.no_me2_convergence());
+   o.kv(p + "no_conv_Mu.precision", pr.get_Mu_MassB_MassWB_convergence_problem().precision);
+   o.ki(p + "no_conv_Mu.iterations", pr.get_Mu_MassB_MassWB_convergence_problem().iterations);
+   o.kv(p + "no_conv_me2.precision", pr.get_me2_convergence_problem().precision);
+   o.ki(p + "no_conv_me2.iterations", pr.get_me2_convergence_problem().iterations);
    o.ks(p + "problems", pr.get_problems());
    o.ks(p + "warnings", pr.get_warnings());
 }
